@@ -158,6 +158,27 @@ def gen_doc(rng, allow_anyof=True):
     return doc
 
 
+def gen_ref_twins(rng):
+    """one definition referenced twice, with and without sibling constraints, at different depths and in either order
+    (what is computed for one use must not be served for the other)"""
+    base = rng.choice([{"type": "number"}, {"type": "integer"}, {"type": "string"}, {"type": ["number", "string"]}])
+    if "string" in json.dumps(base) and "number" not in json.dumps(base):
+        extra = rng.choice([{"minLength": 3}, {"maxLength": 2}])
+    else:
+        extra = rng.choice([{"minimum": 10}, {"maximum": 4}, {"minimum": 2, "maximum": 6}])
+    strong = dict({"$ref": "#/$defs/D"}, **extra)
+    weak = {"$ref": "#/$defs/D"}
+    deep = lambda x: {"type": "object", "properties": {"x": x}}
+    a, b = rng.choice([(deep(strong), weak), (strong, deep(weak)), (deep(weak), strong), (weak, deep(strong)), (strong, weak)])
+    names = rng.sample(J.NAMES, 2) if len(J.NAMES) >= 2 else ["a", "y"]
+    if rng.random() < 0.5:
+        names.sort()
+    doc = {"type": "object", "properties": {names[0]: a, names[1]: b}, "$defs": {"D": base}}
+    if rng.random() < 0.3:
+        doc["required"] = [names[0]]
+    return doc
+
+
 def vary(rng, doc):
     """a document near [doc]: some leaf-like sub-schemas replaced by fresh ones, some keywords dropped"""
     d = copy.deepcopy(doc)
@@ -467,7 +488,7 @@ def run(pid, tier):
     n = 300 if tier == "quick" else 4000
     docs = []
     while len(docs) < n:
-        d = gen_doc(rng, allow_anyof=(pid == "C01"))
+        d = gen_ref_twins(rng) if rng.random() < 0.06 else gen_doc(rng, allow_anyof=(pid == "C01"))
         if isinstance(d, bool) or J.metaschema_ok(d):
             docs.append(d)
     hist = {"in_scope": 0, "with_ref": 0, "with_allOf": 0, "with_array": 0, "raises_library_exception": 0, "labelled_valid": 0, "labelled_invalid": 0}
